@@ -186,8 +186,20 @@ def own_obligations(run):
         accs = [closure_access(run, cl, st=group['state']) for cl in tasks]
         n_groups += 1
         seen = set()
-        for i in range(len(tasks)):
-            for j in range(i + 1, len(tasks)):
+        # function literals handed to code outside the contract (callbacks) or stored in objects before the fork: any
+        # task may end up calling them, so their accesses count as one more task (variables only)
+        esc = [cl for cl in run.escaped_closures[:group.get('nescaped', len(run.escaped_closures))]
+               if all(cl.fn != t.fn for t in tasks)]
+        pairs = [(i, j) for i in range(len(tasks)) for j in range(i + 1, len(tasks))]
+        if esc:
+            E = Access()
+            for cl in esc:
+                closure_access(run, cl, E, st=group['state'])
+            E.ptr_uses = {}
+            accs.append(E)
+            pairs += [(i, len(tasks)) for i in range(len(tasks))]
+        for (i, j) in pairs:
+            if True:
                 A, B = accs[i], accs[j]
                 # --- variables
                 for cid in sorted(set(A.writes) | set(B.writes), key=repr):
